@@ -42,7 +42,9 @@ RULE = ('random construction description: component tree 1-4 deep, slots holding
         'top.add_connection, and the whole property re-checked; in half of the cases 1-4 aliasing re-assignments inside construct '
         '(an already named leaf object or list of leaf objects of the sub-hierarchy, or of the owner itself, bound again under a '
         'new attribute of a component / interface) plus accesses through the old paths; '
-        'non-trivial = has a list slot or a lazily created signal; distinct = distinct canonical description')
+        'separately: chains of 2-3 component classes with @method_port / @non_blocking / @blocking methods (derived classes override / add / '
+        'only inherit decorated methods) elaborated under five histories of freshly created classes (alone, after base classes, after derived '
+        'classes, siblings in both orders): same names in every history; non-trivial = has a list slot or a lazily created signal; distinct = distinct canonical description')
 
 # ------------------------------------------------------------------------------------------------
 # tokens
@@ -1062,6 +1064,138 @@ def shape_case(shape, variant):
     return ['many', [conv(y) for y in x[1]]]
   return {'desc': ['comp', [['x', conv(shape)]]], 'acc_construct': [], 'acc_post': [], 'kind': 'ok', 'bad_exprs': []}
 
+# ------------------------------------------------------------------------------------------------
+# decorated CL / FL methods, class inheritance, and the HISTORY of the process
+#
+# Component._construct turns the methods decorated with @method_port / @non_blocking / @blocking into a CalleePort /
+# CalleeIfcCL (.method, .rdy) / CalleeIfcFL (.method) named after the method, before construct() runs.  Clean rule
+# (ComponentLevel7._handle_decorated_methods walks `s.__class__.__dict__`): only the methods defined in the class's OWN
+# body become named objects -- a derived class gets ports for the decorated methods it declares or overrides itself,
+# not for the ones it merely inherits.  For the model that is a component whose slots are those objects followed by
+# the slots of construct(): the unchanged `hier elab` is compared with every history.
+
+METHODS = ['incr', 'decr', 'push', 'pop', 'peek', 'clear', 'load', 'get', 'tick']
+
+def gen_decorated_chain(rng):
+  chain, inherited = [], []
+  for k in range(rng.choice([2, 2, 3])):
+    own = []
+    pool = list(METHODS)
+    rng.shuffle(pool)
+    n_over = rng.randint(0, min(2, len(inherited))) if k else 0
+    names = rng.sample(inherited, n_over) + [m for m in pool if m not in inherited][:rng.randint(0 if k else 1, 3)]
+    for m in names: own.append([m, rng.choice(['port', 'cl', 'fl'])])
+    wires = [[f'w{k}_{i}', rng.choice([1, 4, 8])] for i in range(rng.randint(0, 2))]
+    chain.append({'methods': own, 'wires': wires})
+    inherited = sorted(set(inherited) | {m for m, _ in own})
+  return chain
+
+def decorated_source(prefix, chain):
+  L = ['from pymtl3 import *', '']
+  for k, c in enumerate(chain):
+    L.append(f'class {prefix}_K{k}( {"Component" if k == 0 else f"{prefix}_K{k-1}"} ):')
+    for m, kind in c['methods']:
+      L.append({'port': '  @method_port', 'cl': '  @non_blocking( lambda s: True )', 'fl': '  @blocking'}[kind])
+      L.append(f'  def {m}( s, x=0 ):'); L.append(f'    return {k}')
+    L.append('  def construct( s ):')
+    if not c['wires']: L.append('    pass')
+    for w, n in c['wires']: L.append(f'    s.{w} = Wire( mk_bits({n}) )')
+    L.append('')
+  n = len(chain)
+  for k in range(n):
+    L += [f'class {prefix}_Only{k}( Component ):', '  def construct( s ):', f'    s.x{k} = {prefix}_K{k}()', '']
+  for tag, order in (('Up', range(n)), ('Down', reversed(range(n)))):
+    L += [f'class {prefix}_Sib{tag}( Component ):', '  def construct( s ):']
+    for k in order: L.append(f'    s.x{k} = {prefix}_K{k}()')
+    L.append('')
+  return '\n'.join(L) + '\n'
+
+def decorated_desc(chain, ks):
+  slots = []
+  for k in ks:
+    c = chain[k]
+    ss = []
+    for m, kind in c['methods']:
+      if kind == 'port': ss.append([m, ['one', ['mport', 'callee']]])
+      elif kind == 'cl': ss.append([m, ['one', ['ifc', [['method', ['one', ['mport', 'callee']]], ['rdy', ['one', ['mport', 'callee']]]], 'CalleeIfcCL']]])
+      else: ss.append([m, ['one', ['ifc', [['method', ['one', ['mport', 'callee']]]], 'CalleeIfcFL']]])
+    for w, n in c['wires']: ss.append([w, ['one', ['sig', 'wire', ['bits', n]]]])
+    slots.append([f'x{k}', ['one', ['comp', ss]]])
+  return ['comp', slots]
+
+def decorated_history_case(ck, chain, verbose=False):
+  """the same construction code elaborated under different histories of the process (each history starts from
+  freshly created classes): alone; after designs instantiating its base classes; sibling children of base /
+  derived classes assigned in both orders.  Every history: whole direct oracle, records == model; across histories:
+  identical name sets."""
+  _counter[0] += 1
+  prefix = f'c14d{os.getpid()}_{_counter[0]}'
+  src = decorated_source(prefix, chain)
+  path = os.path.join(ck.workdir, prefix + '.py')
+  with open(path, 'w') as f: f.write(src)
+  case = {'decorated_chain': chain}
+  n = len(chain)
+  lines = [leanio.line('hier', 'elab', enc_node(decorated_desc(chain, [k])), []) for k in range(n)]
+  lines.append(leanio.line('hier', 'elab', enc_node(decorated_desc(chain, range(n))), []))
+  replies = ck.drv('hier').batch(lines)
+  ok = [True]
+  def elab(mod, cls):
+    top = getattr(mod, f'{prefix}_{cls}')(); top.elaborate()
+    return top
+  def observe(top, tag, reply):
+    objs = top.get_all_object_filter(lambda x: True)
+    ok[0] &= oracle(ck, case, top, objs, tag)
+    recs = {repr(o): real_rec(o) for o in objs}
+    m = parse_recs(reply)
+    if set(m) != set(recs):
+      ck.disagreement(f'Model/Hier≈decorated methods name set', case, sorted(set(m) - set(recs))[:8], [tag] + sorted(set(recs) - set(m))[:8])
+      if verbose: print('DISAGREE', tag, sorted(set(m) ^ set(recs)))
+    else:
+      for nm in sorted(m):
+        if m[nm][:7] != recs[nm]:
+          ck.disagreement('Model/Hier≈decorated methods record', case, [nm] + list(m[nm][:7]), [tag, nm] + list(recs[nm])); break
+    return sorted(recs)
+  def same(a, b, what):
+    if a != b:
+      ck.violation('history-changes-names', {'kind': 'history-changes-names'}, case,
+                   {'histories': what, 'only_first': sorted(set(a) - set(b))[:8], 'only_second': sorted(set(b) - set(a))[:8],
+                    'oracle': 'the same construction code gives the same names whatever was elaborated earlier in the process'})
+      ok[0] = False
+  try:
+    alone = []
+    for k in range(n):                                  # history 1: alone, fresh classes every time
+      mod = load_module(path, f'{prefix}_a{k}')
+      alone.append(observe(elab(mod, f'Only{k}'), f'class {k} alone', replies[k]))
+    mod = load_module(path, f'{prefix}_b')               # history 2: base classes first, then the derived ones
+    for k in range(n):
+      same(alone[k], observe(elab(mod, f'Only{k}'), f'class {k} after its base classes', replies[k]), [f'class {k} alone', 'after its base classes'])
+    mod = load_module(path, f'{prefix}_c')               # history 3: derived classes first, then the base ones
+    for k in reversed(range(n)):
+      same(alone[k], observe(elab(mod, f'Only{k}'), f'class {k} after its derived classes', replies[k]), [f'class {k} alone', 'after its derived classes'])
+    up = observe(elab(load_module(path, f'{prefix}_u'), 'SibUp'), 'siblings base..derived', replies[n])
+    down = observe(elab(load_module(path, f'{prefix}_d'), 'SibDown'), 'siblings derived..base', replies[n])
+    same(up, down, ['siblings assigned base..derived', 'siblings assigned derived..base'])
+    for k in range(n):
+      same([x for x in alone[k] if x.startswith(f's.x{k}')], [x for x in up if x == f's.x{k}' or x.startswith(f's.x{k}.')],
+           [f'class {k} alone', 'as a sibling'])
+  except InfraError:
+    raise
+  except Exception as e:
+    import traceback
+    ck.violation('real-code-raises', {'kind': 'real-code-raises', 'exception': type(e).__name__}, case,
+                 {'exception': f'{type(e).__name__}: {e}', 'traceback': traceback.format_exc()[-1500:]})
+    ok[0] = False
+  ck.count(case, True)
+  ck.hist('decorated_chain', f"{n} classes, {sum(len(c['methods']) for c in chain)} decorated methods")
+  return ok[0]
+
+DECORATED_CORPUS = [
+  # UpDownCounterCL( UpCounterCL ): the derived class overrides one decorated method with another kind and adds one
+  [{'methods': [['incr', 'cl'], ['peek', 'port'], ['get', 'fl']], 'wires': [['w0_0', 8]]},
+   {'methods': [['incr', 'port'], ['decr', 'cl']], 'wires': []}],
+  [{'methods': [['push', 'cl']], 'wires': []}, {'methods': [], 'wires': [['w1_0', 4]]}, {'methods': [['pop', 'cl'], ['push', 'fl']], 'wires': []}],
+]
+
 REBIND_SRC = '''from pymtl3 import *
 class C14RebindIfc( Interface ):
   def construct( s ):
@@ -1100,6 +1234,10 @@ def run(ck):
   rng = ck.rng
   import gc
   rebind_object_with_descendants(ck)
+  for chain in DECORATED_CORPUS: decorated_history_case(ck, json.loads(json.dumps(chain)))
+  for _ in range(24 if ck.tier == 'quick' else 1500):
+    if len(ck.violations) >= 20: break
+    decorated_history_case(ck, gen_decorated_chain(rng))
   nex = 0
   for n in range(1, (5 if ck.tier == 'quick' else 7) + 1):
     c = exhaustive_slice_case(n)
@@ -1118,7 +1256,7 @@ def run(ck):
     ok, nd, real = one_case(ck, c)
     ck.count(c, stats(ck, c, real))
   render_check(ck)
-  total = 1000 if ck.tier == 'quick' else 40000
+  total = 750 if ck.tier == 'quick' else 40000
   budget_s = 45 if ck.tier == 'quick' else 480
   done = 0
   while done < total and ck.elapsed() < budget_s and len(ck.violations) < 20 and len(ck.breaks) < 20:
@@ -1136,6 +1274,11 @@ def replay(ck, data):
     rep = ck.drv('hier').batch([leanio.line('hier', 'render', enc_toks(case[1]))])[0]
     print(f'model={rep}\nimpl =str {render(case[1])}')
     return 0 if rep == 'str ' + render(case[1]) else 1
+  if isinstance(case, dict) and 'decorated_chain' in case:
+    ok = decorated_history_case(ck, case['decorated_chain'], verbose=True)
+    for v in ck.violations: print('VIOLATION', v.kind, v.detail)
+    for b in ck.breaks: print('DISAGREEMENT', b['correspondence'], b['model'], b['impl'])
+    return 0 if ok and not ck.breaks else 1
   if isinstance(case, dict) and case.get('directed') == 'rebind_object_with_descendants':
     rebind_object_with_descendants(ck)
     for v in ck.violations: print('VIOLATION', v.kind, v.signature, v.detail)
